@@ -841,7 +841,56 @@ def facts_vars():
     return out
 
 
-SECTIONS = [("stream", facts_stream), ("control", facts_control), ("packets", facts_packets), ("conn", facts_conn), ("shared", facts_shared), ("auth", facts_auth), ("results", facts_results), ("catalog", facts_catalog), ("charset", facts_charset), ("vars", facts_vars)]
+# ----------------------------------------------------------------------------- session.py routing (C13)
+ROUTE_BODIES = [
+    "session.py:Query:next", "session.py:Query:start", "session.py:Session:_parse",
+    "session.py:Session:_static_query_middleware", "session.py:Session:_use_middleware", "session.py:Session:_kill_middleware",
+    "session.py:Session:_begin_middleware", "session.py:Session:_commit_middleware", "session.py:Session:_rollback_middleware",
+    "session.py:Session:_info_schema_middleware", "session.py:Session:use", "utils.py::find_tables", "utils.py::find_dbs",
+    "connection.py:Connection:handle_query", "connection.py:Connection:query",
+]
+
+
+def facts_route():
+    out = []
+    for key in ROUTE_BODIES:
+        body_fact(key, out)
+    tree = parse("session.py")
+    init = find_func(find_class(tree, "Session"), "__init__")
+    mws = None
+    for n in ast.walk(init):
+        tgt = None
+        if isinstance(n, ast.AnnAssign):
+            tgt = n.target
+        elif isinstance(n, ast.Assign) and len(n.targets) == 1:
+            tgt = n.targets[0]
+        if tgt is not None and ast.unparse(tgt) == "self.middlewares":
+            if mws is not None or not isinstance(n.value, ast.List):
+                raise Shape("self.middlewares: shape")
+            mws = []
+            for e in n.value.elts:
+                if not (isinstance(e, ast.Attribute) and isinstance(e.value, ast.Name) and e.value.id == "self"):
+                    raise Shape("self.middlewares: element shape")
+                mws.append(e.attr)
+    if not mws:
+        raise Shape("self.middlewares not found")
+    # nothing else may touch the list inside the library
+    src = open(os.path.join(SRC, "session.py")).read()
+    if src.count("self.middlewares") != 2:
+        raise Shape("self.middlewares is used in %d places, expected the assignment and handle_query" % src.count("self.middlewares"))
+    out.append("Definition session_middlewares : list string := [" + "; ".join(coq_string(m) for m in mws) + "]%string.")
+    cst = parse("constants.py")
+    info = [n for n in cst.body if isinstance(n, ast.Assign) and ast.unparse(n.targets[0]) == "INFO_SCHEMA"]
+    if len(info) != 1 or not isinstance(info[0].value, ast.Dict):
+        raise Shape("INFO_SCHEMA not found")
+    dbs = [k.value for k in info[0].value.keys]
+    if any(d != d.lower() for d in dbs):
+        raise Shape("INFO_SCHEMA keys are compared with lower-cased names")
+    out.append("Definition catalog_dbs : list (list N) := [" + "; ".join(cps(d) for d in dbs) + "].")
+    return out
+
+
+SECTIONS = [("stream", facts_stream), ("control", facts_control), ("packets", facts_packets), ("conn", facts_conn), ("shared", facts_shared), ("auth", facts_auth), ("results", facts_results), ("catalog", facts_catalog), ("charset", facts_charset), ("vars", facts_vars), ("route", facts_route)]
 
 
 IMPORTS = {
